@@ -181,6 +181,9 @@ func snap(b *strings.Builder, v reflect.Value, depth int, seen map[uintptr]bool)
 		fmt.Fprint(b, v.Uint())
 	case reflect.Float32, reflect.Float64:
 		fmt.Fprint(b, v.Float())
+	case reflect.UnsafePointer:
+		// e.g. the word inside an atomic.Pointer: a hidden cache shows as nil -> address
+		fmt.Fprintf(b, "uptr(%#x)", v.Pointer())
 	default:
 		fmt.Fprintf(b, "<%s>", v.Kind())
 	}
